@@ -2,6 +2,7 @@ package main
 
 import (
 	"errors"
+	"math"
 
 	tmaps "gopkg.in/typ.v4/maps"
 	"gopkg.in/typ.v4/slices"
@@ -68,6 +69,9 @@ func driveFunctional(plan []M, out *Out, _ []string) {
 		}
 		if ty := str(c, "ty"); ty == "byte" || ty == "string" {
 			driveFunctionalTyped(c, ty, out)
+			continue
+		} else if ty == "float" {
+			driveFunctionalFloatMap(c, out)
 			continue
 		}
 		e := M{"op": op, "fam": fam, "a": a, "b": b, "s": s0, "aux": aux0}
@@ -325,4 +329,79 @@ func typedOps[T comparable](op string, s0, aux0 []int, a int, to func(int) T, fr
 		}
 	})
 	return
+}
+
+// The map helpers on map[float64]int: key id 0 is NaN (every NaN key is an entry of its own and can be neither looked up nor
+// deleted by key), key id k is k + 0.5.  Pairs are written as in the int case, NaN entries as key 0.
+func driveFunctionalFloatMap(c M, out *Out) {
+	op, aux0, a := str(c, "op"), ints(c, "aux"), num(c, "a")
+	toK := func(id int) float64 {
+		if id == 0 {
+			return math.NaN()
+		}
+		return float64(id) + 0.5
+	}
+	fromK := func(f float64) int {
+		if f != f {
+			return 0
+		}
+		return int(f)
+	}
+	m := map[float64]int{}
+	for i := 0; i+1 < len(aux0); i += 2 {
+		m[toK(aux0[i])] = aux0[i+1]
+	}
+	flat := func(m map[float64]int) []int {
+		o := []int{}
+		for k, v := range m {
+			o = append(o, fromK(k), v)
+		}
+		return o
+	}
+	e := M{"op": op, "fam": "", "a": a, "b": 0, "s": []int{}, "aux": aux0, "ty": "float"}
+	rs, ri, rb := []int{}, 0, false
+	var resMap map[float64]int
+	e["panic"] = protect(func() {
+		switch op {
+		case "MClone":
+			resMap = tmaps.Clone(m)
+			rs = flat(resMap)
+		case "MClear":
+			tmaps.Clear(m)
+		case "MKeys":
+			for _, k := range tmaps.Keys(m) {
+				rs = append(rs, fromK(k))
+			}
+		case "MValues":
+			rs = append(rs, tmaps.Values(m)...)
+		case "MKeyOf":
+			k, ok := tmaps.KeyOf(m, a)
+			ri, rb = fromK(k), ok
+			if !ok {
+				ri = 0
+			}
+		case "MContainsValue":
+			rb = tmaps.ContainsValue(m, a)
+		case "MHasKey":
+			rb = tmaps.HasKey(m, toK(a))
+		}
+	})
+	e["rs"], e["ri"], e["rb"], e["rg"] = rs, ri, rb, []any{}
+	e["after"], e["auxafter"] = flat(m), aux0
+	if resMap != nil {
+		resMap[424242] = 1
+		delete(resMap, 424242)
+	}
+	e["after2"] = flat(m)
+	for k := range m {
+		if k == k {
+			m[k] = 97
+		}
+	}
+	if resMap != nil {
+		e["rs2"] = flat(resMap)
+	} else {
+		e["rs2"] = rs
+	}
+	out.Emit(e)
 }
